@@ -6,16 +6,16 @@ CONSTANTS
   FinishShowsStep = TRUE
   ClearCountsRows = TRUE
   MCModes <- AllModes
-  MCWidths <- W1
-  MCGaps <- GapOn
-  MCFormats <- FmtNormal
-  MCMax <- Max2
+  MCWidths <- W3
+  MCGaps <- Gaps2
+  MCFormats <- FmtAll
+  MCMax <- Max4
   Ticks <- TicksQ
-  StartArgs <- StartOne
+  StartArgs <- StartQ
   AdvArgs <- AdvQ
   SetArgs <- SetQ
-  Msgs <- NoMsgs
-  Depth = 4
+  Msgs <- MsgsQ
+  Depth = 3
 VIEW HView
 PROPERTY PFrameShape
 PROPERTY PBarWidth
